@@ -227,11 +227,13 @@ def close (s : State) : Out :=
 /-- ncmpio_abort -/
 def abort (s : State) : Out :=
   let doUnlink := s.n.create
+  -- pending requests are cancelled first (as in ncmpio_close); status = NC_EPENDING
+  let status : Err := if s.nGet > 0 || s.nPut > 0 then .epending else .noerr
   -- if (ncp->old != NULL) { free old; fClr(ncp->flags, NC_MODE_DEF) }
   let s1 := if s.old then { s with old := false, n := { s.n with indef := false } } else s
-  -- if (!doUnlink) if (!NC_readonly && NC_indep) status = ncmpio_end_indep_data(ncp)
+  -- if (!doUnlink) if (!NC_readonly && NC_indep) { err = ncmpio_end_indep_data(ncp); if (status == NC_NOERR) status = err }
   let o := if !doUnlink && !s1.n.rdonly && s1.n.indep then endIndep s1 else ret s1 .noerr
-  { st := closed, err := o.err, wr := o.wr, del := doUnlink }
+  { st := closed, err := if status != .noerr then status else o.err, wr := o.wr, del := doUnlink }
 
 /-- ncmpio_sync_numrecs -/
 def syncNumrecs (s : State) : Out :=
@@ -258,13 +260,11 @@ def wait (coll zero : Bool) (s : State) : Out :=
   else { st := cancelAll s, err := .noerr, wr := s.nPut > 0 } -- req_commit of every pending request
 
 /-- ncmpio_wait(ncp, 1, {NC_REQ_NULL}, NULL, NC_REQ_COLL) in collective data mode, as ncmpio_put/get_varn
-    calls it for a zero-length participation: extract_reqs takes its shortcuts on the *count* alone —
-    `numGetReqs == 0 && num_reqs == numLeadPutReqs` "is the same as NC_PUT_REQ_ALL" (and symmetrically
-    for gets) — so the caller's single pending request is completed although its id was not given -/
-def waitNull (s : State) : Out :=
-  if s.nGet == 0 && s.nPut == 1 then { st := { s with nPut := 0, nBput := 0 }, err := .noerr, wr := true }
-  else if s.nPut == 0 && s.nGet == 1 then { st := { s with nGet := 0 }, err := .noerr }
-  else ret s .noerr
+    calls it for a zero-length participation: extract_reqs skips NC_REQ_NULL ids and takes its
+    "same as NC_PUT_REQ_ALL / NC_GET_REQ_ALL" shortcuts only when every id given is a valid id of that kind
+    (since /repo commit 12532099; before it the shortcut was taken on the *count* alone and completed the
+    caller's single pending request), so nothing is completed -/
+def waitNull (s : State) : Out := ret s .noerr
 
 /-- ncmpio_cancel: no mode test (nonblocking APIs may be used in define mode since 1.7.0) -/
 def cancel (zero : Bool) (s : State) : Out :=
